@@ -330,6 +330,13 @@ func (w *World) runECDSA(step int, q *ecdsaReq) *sigEvent {
 	if q.api == apiSignRaw {
 		opKey = "SignRaw"
 	}
+	if out.panicked && out.panicMsg == kernel.DevicePanicMsg && out.dev != nil && q.dev.ErrKind == kernel.ErrPanic {
+		// the caller's own reader panicked and the caller recovered: no
+		// signature, no verdict; what matters is how the key behaves in the
+		// operations that follow
+		w.r.Fault("reader_panicked_and_the_caller_recovered")
+		return nil
+	}
 	if out.panicked {
 		w.r.Violate("C08", "sign-panic", opKey, step, "%s panicked: %s", q.desc(), out.panicMsg)
 		return nil
@@ -1135,6 +1142,10 @@ func (w *World) runSchnorr(step, key int, msg []byte, cfg kernel.DevCfg, useNil 
 		outcome = "error"
 	}
 	w.r.Hist("%d %s -> %s sig=%x delivered=%d reads=%d", step, desc, outcome, sig, dev.Delivered, len(dev.Log))
+	if po.panicked && po.panicMsg == kernel.DevicePanicMsg && cfg.ErrKind == kernel.ErrPanic {
+		w.r.Fault("reader_panicked_and_the_caller_recovered")
+		return
+	}
 	if po.panicked {
 		w.r.Violate("C14", "sign-panic", "SchnorrSign", step, "%s panicked: %s", desc, po.panicMsg)
 		return
